@@ -40,6 +40,12 @@ type c10Move struct {
 	//   goast-built     the parsed file with the parser's derived File.Imports list dropped (as in a generated ast)
 	//   goast-parsed    the parsed file as it is (the reference point of the other two)
 	Resolver string `json:"resolver,omitempty"`
+	// LocalPath: the packages involved are decorated with Decorator.ResolveLocalPath = true (types-based
+	// resolver, the files parsed with the parser's default object resolution): references to the
+	// package's own package-level objects carry the package's path, so a declaration that uses them can
+	// be placed into another package; every use -- also of objects of the package it came from -- must
+	// denote the object go/types reported on the original
+	LocalPath bool `json:"local_path,omitempty"`
 }
 
 var c10SyntacticResolvers = []string{"goast-restored", "goast-built", "goast-parsed"}
@@ -121,6 +127,29 @@ var c10Programs = []program{
 			"package use\n\nvar plain = 1\n",
 		}},
 		{Path: "lib/empty", Files: []string{"package empty\n\nvar Nothing = 0\n"}},
+	}},
+	// ResolveLocalPath (c10Move.LocalPath): declarations of mv/a refer to package-level objects of mv/a
+	// declared in the same file and in the other file of the package (constants, variables, types,
+	// functions, a generic type, a method value), next to a remote package; the packages after mv/a
+	// declare same-named objects of their own, import mv/a under its name, under an alias, through a
+	// dot-import, or not at all, and bind the name "a" to something else
+	{Pkgs: []progPkg{
+		{Path: "mv/dep", Files: []string{"package dep\n\nfunc Repeat(s string, n int) string { return s }\n\nconst Sep = \"|\"\n"}},
+		{Path: "mv/a", Files: []string{
+			"package a\n\nimport \"mv/dep\"\n\n// Sep separates the columns.\nconst Sep = \",\"\n\n// Width is the number of columns.\nvar Width = 3\n\ntype Row struct{ Cells int }\n\nfunc (r Row) Len() int { return r.Cells }\n\ntype Pair[K comparable, V any] struct {\n\tKey K\n\tVal V\n}\n\nfunc NewRow() Row { return Row{Cells: Width} }\n\n" +
+				"// Banner uses objects of this file, of the other file and of a remote package.\nfunc Banner() string {\n\treturn dep.Repeat(Sep, Width) + Footer\n}\n\nvar Line = Sep + Sep\n\nvar Rows = []Row{{Cells: Width}, NewRow()}\n\nvar Index = map[Level]Pair[string, Row]{Low: {Key: Sep, Val: Row{}}}\n\nvar Measure = Row.Len\n\ntype Grid struct {\n\tRows  []Row\n\tLevel Level\n}\n\nconst Twice = Sep + dep.Sep + Footer\n\nfunc Mixed() (Row, Level) { return NewRow(), High }\n\nvar Far = Footer + Tail()\n",
+			"package a\n\nconst Footer = \".\"\n\ntype Level int\n\nconst (\n\tLow Level = iota\n\tHigh\n)\n\nfunc Tail() string { return Footer }\n\nvar Back = Sep + Footer\n\nfunc Both() (string, int) { return Sep + Footer, Width + int(High) }\n",
+		}},
+		{Path: "mv/b", Files: []string{
+			"package b\n\n// Sep of package b is a different object from a.Sep.\nconst Sep = \";\"\n\nconst Footer = 4\n\ntype Row []string\n\nfunc Other() string { return Sep }\n",
+			"package b\n\nimport a \"mv/dep\"\n\nvar Tail = a.Repeat(Sep, 2)\n\nfunc NewRow() Row { return nil }\n",
+			"package b\n\nimport \"mv/a\"\n\nvar Level = a.High\n\nvar Width = a.Width\n",
+		}},
+		{Path: "mv/c", Files: []string{
+			"package c\n\nimport first \"mv/a\"\n\nvar Mark = first.Sep + \"c\"\n\nvar A1 = 1\n",
+			"package c\n\nimport . \"mv/a\"\n\nvar Wide = Width + A1\n",
+			"package c\n\nimport dep \"mv/a\"\n\nvar Lowest = dep.Low\n",
+		}},
 	}},
 }
 
@@ -236,6 +265,7 @@ func c10Check(mv c10Move) (key, what string) {
 			continue
 		}
 		dec := decorator.NewDecoratorWithImports(c.fset, pp, gotypes.New(c.info[pp].Uses))
+		dec.ResolveLocalPath = mv.LocalPath
 		decs[pp] = dec
 		for _, af := range c.files[pp] {
 			df, err := dec.DecorateFile(af)
@@ -268,7 +298,7 @@ func c10Check(mv c10Move) (key, what string) {
 	if moved == nil {
 		return "", ""
 	}
-	before := denotations(c.info[srcPkg.Path], astDeclByName(c.files[srcPkg.Path][mv.FromFile], mv.Decl), c.pkgs[srcPkg.Path], mv.ToPkg != "")
+	before := denotations(c.info[srcPkg.Path], astDeclByName(c.files[srcPkg.Path][mv.FromFile], mv.Decl), c.pkgs[srcPkg.Path], mv.ToPkg != "" && !mv.LocalPath)
 	from.Decls = rest
 	to := dfiles[tgtPkgPath][mv.ToFile]
 	moved.Decorations().Before = dst.EmptyLine
@@ -330,7 +360,7 @@ func c10Check(mv c10Move) (key, what string) {
 	if nd == nil {
 		return "c10-lost", "the moved declaration is not in the target file"
 	}
-	after := denotations(nc.info[places[0].pkg], nd, nc.pkgs[places[0].pkg], mv.ToPkg != "")
+	after := denotations(nc.info[places[0].pkg], nd, nc.pkgs[places[0].pkg], mv.ToPkg != "" && !mv.LocalPath)
 	// objects are compared by (package path, name): the re-checked program has new object identities
 	if strings.Join(before, " ") != strings.Join(after, " ") {
 		return "c10-denotation", fmt.Sprintf("identifiers of the moved declaration denote\n  %v\nbefore and\n  %v\nafter the move", before, after)
@@ -398,6 +428,104 @@ func c10Prop(c *Ctx) {
 			c10SyntacticMoves(c, mv, "cross-package ")
 		}
 	}
+}
+
+// c10LocalPathMoves: with Decorator.ResolveLocalPath the references to the package's own objects travel
+// too: every declaration of mv/a (program 3) that no other declaration refers to and that has no
+// function-local names is placed into every file of the packages after mv/a (which declare same-named
+// objects, import mv/a under several names or not at all) and into the other file of mv/a, once and
+// onwards to a second file.  The candidates are computed from go/types, not listed.
+func c10LocalPathMoves(c *Ctx) {
+	const pi = 3
+	c.Res.Rule += "; with Decorator.ResolveLocalPath (types-based resolver, parser's object resolution): every declaration of a two-file package that uses package-level objects of its own file and of the other file, is used nowhere else and has no function-local names, moved into every file of two later packages (same-named objects of their own; the source package imported by name, alias, dot-import, not at all; its name bound to another package) and into the other file of its package, once and onwards"
+	prog := c10Programs[pi]
+	chk := typeCheck(prog)
+	if chk.err != nil {
+		c.Res.fail("c10-program", "the program does not type-check: "+chk.err.Error(), c10Move{Prog: pi, Decl: "-", LocalPath: true})
+		return
+	}
+	src := "mv/a"
+	self := chk.pkgs[src]
+	for fi, af := range chk.files[src] {
+		for _, d := range af.Decls {
+			var nm string
+			switch d := d.(type) {
+			case *ast.FuncDecl:
+				if d.Recv == nil {
+					nm = d.Name.Name
+				}
+			case *ast.GenDecl:
+				if d.Tok == token.IMPORT || len(d.Specs) != 1 {
+					continue
+				}
+				switch s := d.Specs[0].(type) {
+				case *ast.ValueSpec:
+					nm = s.Names[0].Name
+				case *ast.TypeSpec:
+					nm = s.Name.Name
+				}
+			}
+			if nm == "" || !usesLocalObjects(chk.info[src], d, self) || referencedElsewhere(chk.info[src], chk.files[src], d, self) || hasScopedNames(chk.info[src], d, self) {
+				continue
+			}
+			for _, pk := range prog.Pkgs {
+				if pk.Path == "mv/dep" {
+					continue
+				}
+				for tf := range pk.Files {
+					if pk.Path == src && tf == fi {
+						continue
+					}
+					for _, twice := range []bool{false, true} {
+						mv := c10Move{Prog: pi, SrcPkg: src, FromFile: fi, Decl: nm, ToFile: tf, Twice: twice, LocalPath: true}
+						label := "local-path same-package"
+						if pk.Path != src {
+							mv.ToPkg = pk.Path
+							label = "local-path cross-package"
+						}
+						c.Res.Evaluations++
+						c.Res.seen(fmt.Sprint(mv))
+						c.Res.hist("c10", fmt.Sprintf("%s twice=%v", label, twice))
+						if key, what := c10Check(mv); key != "" {
+							c.Res.fail(key, what, mv)
+						}
+					}
+				}
+			}
+		}
+	}
+}
+
+// hasScopedNames: the declaration uses or declares names of an inner scope (parameters, results, local
+// variables, type parameters, labels) -- anything go/types records that is neither a package-level
+// object, nor a field or method, nor predeclared
+func hasScopedNames(info *types.Info, d ast.Decl, self *types.Package) bool {
+	found := false
+	ast.Inspect(d, func(n ast.Node) bool {
+		id, ok := n.(*ast.Ident)
+		if !ok {
+			return true
+		}
+		for _, obj := range []types.Object{info.Uses[id], info.Defs[id]} {
+			if obj == nil || obj.Pkg() == nil {
+				continue
+			}
+			if _, isPkgName := obj.(*types.PkgName); isPkgName {
+				continue
+			}
+			if v, ok := obj.(*types.Var); ok && v.IsField() {
+				continue
+			}
+			if _, isFunc := obj.(*types.Func); isFunc {
+				continue // functions and methods are never function-local
+			}
+			if obj.Parent() != obj.Pkg().Scope() {
+				found = true
+			}
+		}
+		return true
+	})
+	return found
 }
 
 // c10SyntacticMoves: the move repeated with the source file decorated by the syntax-only resolver from
@@ -558,7 +686,7 @@ func c10Generated(c *Ctx) {
 }
 
 func init() {
-	props["C10"] = func(c *Ctx) { c10Prop(c); c10Generated(c) }
+	props["C10"] = func(c *Ctx) { c10Prop(c); c10LocalPathMoves(c); c10Generated(c) }
 	corrs["C10"] = importsCorr
 	replays["C10"] = func(c *Ctx, raw json.RawMessage) (bool, string) {
 		var mv c10Move
